@@ -428,6 +428,11 @@ func biasedAst(rng *rand.Rand, cfg gen.Config) *gen.Node {
 	case 10, 11: // what the ordinal-ignore-case prefix analysis looks at: two-character classes (real case pairs and
 		// look-alikes: ASCII non-letters 0x20 apart, letters with a third fold partner) and caseless literals
 		pairs := [][2]rune{{'A', 'a'}, {'B', 'b'}, {'[', '{'}, {']', '}'}, {'\\', '|'}, {'^', '~'}, {'@', '`'}, {'_', 0x7f}, {'K', 'k'}, {'S', 's'}, {'k', 0x212A}, {'1', 'Q'}, {'É', 'é'}, {'-', '\r'}}
+		if !strings.ContainsRune(string(cfg.Alphabet), 'k') {
+			// the specification legs define case-insensitivity for plain upper/lower pairs only: no k, s (their
+			// fold orbits have a third member, and RE2+IgnoreCase folds them into \W: known finding KF1)
+			pairs = [][2]rune{{'A', 'a'}, {'B', 'b'}, {'[', '{'}, {']', '}'}, {'\\', '|'}, {'^', '~'}, {'@', '`'}, {'_', 0x7f}, {'1', 'Q'}, {'É', 'é'}, {'-', '\r'}}
+		}
 		caseless := []rune{',', '"', ':', '.', ';', '1', ' ', '-', '_', '@', '['}
 		var parts []*gen.Node
 		for k := 2 + rng.Intn(3); k > 0; k-- {
@@ -674,6 +679,8 @@ var engCorpus = func() []engCase {
 		{Pattern: `(?:ab*){2}`, Text: R("abab")},
 		{Pattern: `a{64}c`, Opts: rtl, Text: R("zz" + strings.Repeat("a", 64) + "cyy"), Start: 69},
 		{Pattern: `(?<=(?:a*ba){2})c`, Text: R("baabac")},
+		{Pattern: `(?<=(?:a*ca){2})`, Text: R("aacaca")},
+		{Pattern: `x(?<=(?:a*ca){2}x)`, Text: R("acacax")},
 		{Pattern: `(?>(?:a*ba){2})`, Opts: rtl, Text: R("baaba"), Start: 5},
 		{Pattern: `\w+(?:\s+xbcy\s*|[bx]|\s+b\s+)[a-c]{1}\s*a`, CodeGen: true, Text: R("Y\U0001F600_é1\nb \ncab")},
 		{Pattern: `(?:y||[^\x{1F600}])b`, Text: R("\U0001F601b")},
